@@ -21,7 +21,7 @@ import (
 type numType struct {
 	Name   string
 	Float  bool
-	Bits   int  // integer width
+	Bits   int // integer width
 	Signed bool
 	Prec   int // float significand bits (incl. implicit bit)
 	Emax   int // float: largest finite exponent (2^Emax <= max < 2^(Emax+1))
@@ -315,8 +315,8 @@ func c11Gen(t *rapid.T, env *core.Env) any {
 
 func init() {
 	core.Register(&core.Prop{
-		ID: "C11",
-		Rule: "exhaustive: all 17x17 ordered pairs of numeric types (i8..i256, u8..u256, f32..f256, byte) x 6 positions (let, assignment, argument, return, struct field initialiser, fixed-array element) with a parameter as source, each position file compiled with `ferret -t` and re-compiled until the accepted subset compiles as a whole; rapid: random (S,T) x 16 positions x 13 source-expression forms. Oracle: range/significand arithmetic from first principles. non-trivial = a batch containing >=1 pair with S != T; distinct = hash of the batch",
+		ID:         "C11",
+		Rule:       "exhaustive: all 17x17 ordered pairs of numeric types (i8..i256, u8..u256, f32..f256, byte) x 6 positions (let, assignment, argument, return, struct field initialiser, fixed-array element) with a parameter as source, each position file compiled with `ferret -t` and re-compiled until the accepted subset compiles as a whole; rapid: random (S,T) x 16 positions x 13 source-expression forms. Oracle: range/significand arithmetic from first principles. non-trivial = a batch containing >=1 pair with S != T; distinct = hash of the batch",
 		Gen:        c11Gen,
 		New:        func() any { return &c11Case{} },
 		Check:      c11Check,
